@@ -126,3 +126,11 @@ func (e *EntropyStream) fill(p []byte) {
 		e.Log = append(e.Log, c)
 	}
 }
+
+// Pick2 returns a or b with equal probability.
+func (t *Tape) Pick2(a, b int) int {
+	if t.Bool() {
+		return a
+	}
+	return b
+}
